@@ -38,8 +38,11 @@ pub struct CtObs { pub ct: Ct, pub em: irdump::EmitMaps, pub pm: irdump::ParseMa
 /// parse, (optionally run `edit`), emit with preserve_code_transform
 pub fn observe_ct(wasm: &[u8], names: bool, edit: &dyn Fn(&mut Module)) -> std::result::Result<CtObs, String> { observe_ct_cfg(wasm, names, false, edit) }
 /// `dwarf`: the code transform is requested through generate_dwarf(true) (which runs the DWARF emitter BEFORE the custom sections get the transform) instead of preserve_code_transform(true)
-pub fn observe_ct_cfg(wasm: &[u8], names: bool, dwarf: bool, edit: &dyn Fn(&mut Module)) -> std::result::Result<CtObs, String> {
+pub fn observe_ct_cfg(wasm: &[u8], names: bool, dwarf: bool, edit: &dyn Fn(&mut Module)) -> std::result::Result<CtObs, String> { observe_ct_cfg2(wasm, names, dwarf, false, edit) }
+/// `hook`: parse with an `on_instr_loc` callback that maps every input position to the location with the same number (what the default does without a callback)
+pub fn observe_ct_cfg2(wasm: &[u8], names: bool, dwarf: bool, hook: bool, edit: &dyn Fn(&mut Module)) -> std::result::Result<CtObs, String> {
     let mut cfg = ModuleConfig::new(); cfg.generate_name_section(names).generate_producers_section(false); if dwarf { cfg.generate_dwarf(true); } else { cfg.preserve_code_transform(true); }
+    if hook { cfg.on_instr_loc(|pos| InstrLocId::new(*pos as u32)); }
     let (mut m, pm) = irdump::parse_with_maps(wasm, &mut cfg).map_err(|e| format!("parse: {:#}", e))?;
     edit(&mut m);
     let (rec, em) = irdump::IndexRecorder::for_module(&m);
@@ -172,12 +175,12 @@ pub fn main(args: &[String]) {
         if amod::validate(wasm, feats).is_err() { continue; }
         // variants: unchanged; GC before emitting; marker instructions inserted at random places through the builder API
         let big = name.starts_with("many-functions-");
-        let variants: Vec<u8> = if big { vec![0] } else { vec![0, 1, 2, 3, 4] };   // 4 = unchanged, but with generate_dwarf(true) in place of preserve_code_transform(true)
+        let variants: Vec<u8> = if big { vec![0] } else { vec![0, 1, 2, 3, 4, 5] };   // 4 = unchanged, but with generate_dwarf(true) in place of preserve_code_transform(true); 5 = unchanged, parsed with an identity on_instr_loc callback
         for variant in variants {
             let names = r.chance(1, 2);
             let seed_edit = r.below(1 << 30);
             let edits: std::cell::RefCell<Vec<(usize, usize, usize)>> = Default::default();
-            let o = match catch(|| observe_ct_cfg(wasm, names, variant == 4, &|m: &mut Module| {
+            let o = match catch(|| observe_ct_cfg2(wasm, names, variant == 4, variant == 5, &|m: &mut Module| {
                     if variant == 1 { passes::gc::run(m); }
                     if variant == 2 { let mut rr = Rng::new(seed_edit as u64); let ids: Vec<FunctionId> = m.funcs.iter_local().map(|(id, _)| id).collect();
                         for fid in ids { let lf = m.funcs.get_mut(fid).kind.unwrap_local_mut(); let seqs = irdump::seq_ids(lf); let mut keys: Vec<_> = seqs.keys().cloned().collect(); keys.sort();
@@ -191,14 +194,14 @@ pub fn main(args: &[String]) {
                 None => { viol.push(Json::obj(vec![("class", Json::s("emit-panics-with-code-transform")), ("props", Json::s("C11 C02")), ("what", Json::s(format!("{}: parse/emit panics with preserve_code_transform (variant {})", name, variant))), ("input", Json::s(crate::c03::hex(wasm)))])); continue; } };
             if variant == 2 && amod::validate(&o.out, feats).is_err() { continue; }
             if let Err(e) = amod::validate(&o.out, feats) { if true { viol.push(Json::obj(vec![("class", Json::s("output-invalid-with-code-transform")), ("props", Json::s("C02")), ("what", Json::s(format!("{}: output does not validate (variant {}): {}", name, variant, e))), ("input", Json::s(crate::c03::hex(wasm)))])); } }   // a marker landed in a place where it breaks typing (e.g. after a terminator of a typed block): not a well-formed edit
-            let vname = format!("{}{}", name, ["", " (after gc)", " (markers inserted)", " (a function added through the API)", " (with generate_dwarf)"][variant as usize]);
+            let vname = format!("{}{}", name, ["", " (after gc)", " (markers inserted)", " (a function added through the API)", " (with generate_dwarf)", " (with an identity on_instr_loc callback)"][variant as usize]);
             oracle(&vname, wasm, &o, &mut viol);
             if variant == 1 { n_gc += 1; } if variant == 2 { n_edit += 1; }
             n_pairs += o.ct.pairs.len() as u64; n_funcs += o.ct.ranges.len() as u64;
             if name.starts_with("many-functions-16") { continue; }   // too large a term for the Coq side; covered by the oracle
             let ed: Vec<(usize, usize, usize)> = edits.borrow().clone();
             if variant == 3 { n_added += 1; continue; }
-            if variant == 4 { continue; }   // same Coq case as variant 0: the oracle is what matters here   // the added function has no counterpart in the input stream the Coq case is built from: oracle only
+            if variant >= 4 { continue; }   // same Coq case as variant 0: the oracle is what matters here   // the added function has no counterpart in the input stream the Coq case is built from: oracle only
             match coq_case(wasm, &o, variant == 1, &ed) { Some(line) => { if samples.len() < 2 && line.len() < 1500 { samples.push(line.clone()); } w.push(&line); n_cases += 1; } None => n_unmodelled += 1 }
         }
     }
